@@ -199,7 +199,9 @@ class BaseNode(Node):
         if isinstance(nodes, str):   # block import
             node.value_raw = nodes
         else:                        # node import
-            node.value_raw = nodes[0].value_raw
+            # deliver the value the node has now (after modifications), not the raw text of its definition
+            current = getattr(nodes[0].value, 'value', None)
+            node.value_raw = nodes[0].value_raw if current is None else current
             if not node.units_raw:
                 node.units_raw = nodes[0].units_raw
         
